@@ -23,6 +23,7 @@ RULE = (
     "distinct = distinct (detector type, written container set, load position); non-trivial = at least three containers initialised including one of {3-D photon, clusters, scene, data, phase}"
 )
 ASSUMPTIONS = [
+    "written buckets may be dark frames (every element zero) and the environment may hold a single wavelength or a multi-wavelength description with a fractional resolution; both are states the constructors accept, so they must survive the file",
     "equality is structural and exact (arrays bit-identical, frames equal column by column, trees equal node by node)",
     "HDF5 round trips cannot run here (h5py missing); they are counted under 'hdf5_not_run' and never as passed",
     "for the load-detector clause the observers after the load must see the file's buckets (plus what they themselves wrote) and the final result must carry them",
